@@ -119,8 +119,11 @@ int main(int argc, char **argv)
 	if (!strcmp(VF.space, "short")) {
 		int maxlen = atoi(vf_extra("maxlen", "2")), len, m;
 		const char *only = vf_extra("method", "");
+		int light = atoi(vf_extra("light", "0"));
 		for (m = 0; m < 14; ++m) {
 			if (only[0] && strcmp(only, METHODS[m])) continue;
+			/* light: only the decoders with small state, two (declared length, schedule) pairs per string */
+			if (light && (!strcmp(METHODS[m], "-lhx-") || !strcmp(METHODS[m], "-lh7-") || !strcmp(METHODS[m], "-lh6-") || !strcmp(METHODS[m], "-lh4-") || m < 3)) continue;
 			for (len = 0; len <= maxlen; ++len) {
 				unsigned long v, lim = 1ul << (8 * len);
 				for (v = 0; v < lim; ++v) {
@@ -128,7 +131,8 @@ int main(int argc, char **argv)
 					int i;
 					for (i = 0; i < len; ++i) s[i] = (uint8_t) (v >> (8 * (len - 1 - i)));
 					if (!vf_case("%s input=%s all declared lengths and read schedules", METHODS[m], vf_hex(s, len))) continue;
-					fuzz_all_schedules(METHODS[m], s, len, bitreader_method(METHODS[m]));
+					if (light) { vf_outcome(vf_mix(fuzz_run(METHODS[m], s, (size_t) len, 8192, 2, 0), fuzz_run(METHODS[m], s, (size_t) len, 1, 0, 0))); }
+					else fuzz_all_schedules(METHODS[m], s, len, bitreader_method(METHODS[m]));
 					if (len) vf_nontrivial(vf_mix(m, v + ((uint64_t) len << 40)));
 				}
 			}
